@@ -10,6 +10,8 @@ CONSTANTS
   MaxElems = 16
   TakeAll = FALSE
   Mutant = "none"
+INVARIANT ContainerInv
+INVARIANT LocatedInv
 INVARIANT Sizes
 INVARIANT IndexPartition
 INVARIANT EvalOrder
